@@ -288,6 +288,11 @@ impl Monitor {
             }
         }
         let unknown_total: u64 = unknown.iter().map(|u| u.0).sum();
+        let groups: Vec<Value> = unknown
+            .iter()
+            .take(500)
+            .map(|(n, v)| json!({"clause": v.clause, "signature": v.signature, "occurrences": n, "first_deviation": fnum(v.deviation), "tolerance": v.tol}))
+            .collect();
 
         // hook counters
         let hooks: Map<String, Value> = feos_core::verif::counters()
@@ -299,7 +304,7 @@ impl Monitor {
         let replay_dir = self.cfg.verif_dir.join("replays");
         let _ = std::fs::create_dir_all(&replay_dir);
         let mut lines = Vec::new();
-        for (n, v) in unknown.iter().take(40) {
+        for (k, (n, v)) in unknown.iter().enumerate().take(300) {
             let h = crate::prng::hash_str(&format!("{}{}{}", v.clause, v.signature, v.case));
             let path = replay_dir.join(format!("{}-{:016x}.json", id, h));
             let body = json!({
@@ -308,6 +313,9 @@ impl Monitor {
                 "deviation": fnum(v.deviation), "tolerance": v.tol, "detail": v.detail,
             });
             let _ = std::fs::write(&path, serde_json::to_string_pretty(&body).unwrap());
+            if k >= 40 {
+                continue;
+            }
             lines.push(format!(
                 "VIOLATION property={} replay={} clause={} dev={:e} tol={:e} sig={} occurrences={}",
                 id,
@@ -359,6 +367,7 @@ impl Monitor {
             "hook_events": hooks,
             "known_findings_observed": known_seen.iter().map(|(k,(w,n))| json!({"id":k,"what":w,"witnesses":n})).collect::<Vec<_>>(),
             "inconclusive_reasons": self.inconclusive,
+            "violation_groups": groups,
             "verdict": verdict,
         });
         if let Value::Object(m) = &mut coverage {
